@@ -40,6 +40,7 @@ var checks = map[string][]HarnessSpec{
 	},
 	"C03": {
 		{Name: "HarnessC03Select", Pkg: "bql", Quick: map[string]int{"K": 2, "TEMPORAL": 1}, Thorough: map[string]int{"K": 3, "TEMPORAL": 1}, ThoroughWall: 90 * time.Minute},
+		{Name: "HarnessC03Extract", Pkg: "bql", Quick: map[string]int{"K": 2}, Thorough: map[string]int{"K": 3}, ThoroughWall: 90 * time.Minute, Note: "extraction keywords, predicate windows, global time bounds, several FROM graphs"},
 	},
 	"C10": {
 		{Name: "HarnessC10Join", Pkg: "bql", Quick: map[string]int{"ROWS": 2, "SHARED": 1, "KINDS": 0}, Thorough: map[string]int{"ROWS": 3, "SHARED": 1, "KINDS": 0}},
@@ -50,6 +51,7 @@ var checks = map[string][]HarnessSpec{
 	},
 	"C11": {
 		{Name: "HarnessC11Reduce", Pkg: "bql", Quick: map[string]int{"ROWS": 3, "KINDS": 0}, Thorough: map[string]int{"ROWS": 4, "KINDS": 0}},
+		{Name: "HarnessPipeline", Pkg: "bql", Quick: map[string]int{"PROP": 11, "K": 2}, Thorough: map[string]int{"PROP": 11, "K": 3}, Note: "GROUP BY end to end through lexer, parser, planner and memory driver"},
 		{Name: "HarnessC11Reduce", Pkg: "bql", Quick: map[string]int{"ROWS": 3, "KINDS": 2}, Thorough: map[string]int{"ROWS": 4, "KINDS": 2}, Note: "string, text-literal and node cells mixed in the grouping column"},
 	},
 	"C12": {
@@ -58,6 +60,8 @@ var checks = map[string][]HarnessSpec{
 		{Name: "HarnessC12Permutation", Pkg: "bql", Quick: map[string]int{"ROWS": 2}, Thorough: map[string]int{"ROWS": 3}},
 		{Name: "HarnessC12Limit", Pkg: "bql", Quick: map[string]int{"ROWS": 3}, Thorough: map[string]int{"ROWS": 5}},
 		{Name: "HarnessC12LimitClause", Pkg: "bql", Quick: map[string]int{"D": 2}, Thorough: map[string]int{"D": 4}},
+		{Name: "HarnessPipeline", Pkg: "bql", Quick: map[string]int{"PROP": 12, "K": 2}, Thorough: map[string]int{"PROP": 12, "K": 3}, Note: "ORDER BY / LIMIT end to end through lexer, parser, planner and memory driver"},
+		{Name: "HarnessPipeline", Pkg: "bql", Quick: map[string]int{"PROP": 120, "K": 3}, Thorough: map[string]int{"PROP": 120, "K": 4}, Note: "ORDER BY followed by HAVING and LIMIT, three and four rows"},
 	},
 	"C13": {
 		{Name: "HarnessC13IntLeaf", Pkg: "bql", Solver: "cvc5-int", TimeoutMS: 60000},
@@ -65,6 +69,7 @@ var checks = map[string][]HarnessSpec{
 		{Name: "HarnessC13KindMismatch", Pkg: "bql"},
 		{Name: "HarnessC13TimeLeaf", Pkg: "bql"},
 		{Name: "HarnessC13Boolean", Pkg: "bql"},
+		{Name: "HarnessPipeline", Pkg: "bql", Quick: map[string]int{"PROP": 13, "K": 2}, Thorough: map[string]int{"PROP": 13, "K": 3}, Note: "HAVING end to end through lexer, parser, planner and memory driver"},
 	},
 	"C17": {
 		{Name: "HarnessC17Tables", Pkg: "bql"},
@@ -78,6 +83,8 @@ var checks = map[string][]HarnessSpec{
 		{Name: "HarnessC18NoStatePairs", Pkg: "bql"},
 	},
 	"C19": {
+		{Name: "HarnessC19OptionPairs", Pkg: "store", Note: "all twelve read methods, two reads with independently chosen options, optional write in between"},
+		{Name: "HarnessC19Abandon", Pkg: "store", Note: "a read abandoned by its caller (context cancelled mid-stream), then the same read again"},
 		{Name: "HarnessC19LockStep", Pkg: "store", Quick: map[string]int{"H": 2, "WARM": 1, "HANDLES": 2}, Thorough: map[string]int{"H": 3, "WARM": 1, "HANDLES": 2}, ThoroughWall: 90 * time.Minute},
 	},
 	"C01": {
@@ -87,16 +94,16 @@ var checks = map[string][]HarnessSpec{
 		{Name: "HarnessC01Recreate", Pkg: "store"},
 	},
 	"C02": {
-		{Name: "HarnessC02Lookup", Pkg: "store", Quick: map[string]int{"METHOD": 0, "PRE": 1, "REM": 1, "TEMPORAL": 1}, Thorough: map[string]int{"METHOD": 0, "PRE": 2, "REM": 1, "TEMPORAL": 1}, Note: "Objects"},
-		{Name: "HarnessC02Lookup", Pkg: "store", Quick: map[string]int{"METHOD": 1, "PRE": 1, "REM": 1, "TEMPORAL": 1}, Thorough: map[string]int{"METHOD": 1, "PRE": 2, "REM": 1, "TEMPORAL": 1}, Note: "Subjects"},
+		{Name: "HarnessC02Lookup", Pkg: "store", Quick: map[string]int{"METHOD": 0, "PRE": 1, "REM": 1, "TEMPORAL": 1, "ANCHORS": 3}, Thorough: map[string]int{"METHOD": 0, "PRE": 2, "REM": 1, "TEMPORAL": 1, "ANCHORS": 3}, Note: "Objects"},
+		{Name: "HarnessC02Lookup", Pkg: "store", Quick: map[string]int{"METHOD": 1, "PRE": 1, "REM": 1, "TEMPORAL": 1, "ANCHORS": 3}, Thorough: map[string]int{"METHOD": 1, "PRE": 2, "REM": 1, "TEMPORAL": 1, "ANCHORS": 3}, Note: "Subjects"},
 		{Name: "HarnessC02Lookup", Pkg: "store", Quick: map[string]int{"METHOD": 2, "PRE": 1, "REM": 1, "TEMPORAL": 1}, Thorough: map[string]int{"METHOD": 2, "PRE": 2, "REM": 1, "TEMPORAL": 1}, Note: "PredicatesForSubject"},
 		{Name: "HarnessC02Lookup", Pkg: "store", Quick: map[string]int{"METHOD": 3, "PRE": 1, "REM": 1, "TEMPORAL": 1}, Thorough: map[string]int{"METHOD": 3, "PRE": 2, "REM": 1, "TEMPORAL": 1}, Note: "PredicatesForObject"},
 		{Name: "HarnessC02Lookup", Pkg: "store", Quick: map[string]int{"METHOD": 4, "PRE": 1, "REM": 1, "TEMPORAL": 1}, Thorough: map[string]int{"METHOD": 4, "PRE": 2, "REM": 1, "TEMPORAL": 1}, Note: "PredicatesForSubjectAndObject"},
 		{Name: "HarnessC02Lookup", Pkg: "store", Quick: map[string]int{"METHOD": 5, "PRE": 1, "REM": 1, "TEMPORAL": 1}, Thorough: map[string]int{"METHOD": 5, "PRE": 2, "REM": 1, "TEMPORAL": 1}, Note: "TriplesForSubject"},
-		{Name: "HarnessC02Lookup", Pkg: "store", Quick: map[string]int{"METHOD": 6, "PRE": 1, "REM": 1, "TEMPORAL": 1}, Thorough: map[string]int{"METHOD": 6, "PRE": 2, "REM": 1, "TEMPORAL": 1}, Note: "TriplesForPredicate"},
+		{Name: "HarnessC02Lookup", Pkg: "store", Quick: map[string]int{"METHOD": 6, "PRE": 1, "REM": 1, "TEMPORAL": 1, "ANCHORS": 3}, Thorough: map[string]int{"METHOD": 6, "PRE": 2, "REM": 1, "TEMPORAL": 1, "ANCHORS": 3}, Note: "TriplesForPredicate"},
 		{Name: "HarnessC02Lookup", Pkg: "store", Quick: map[string]int{"METHOD": 7, "PRE": 1, "REM": 1, "TEMPORAL": 1}, Thorough: map[string]int{"METHOD": 7, "PRE": 2, "REM": 1, "TEMPORAL": 1}, Note: "TriplesForObject"},
-		{Name: "HarnessC02Lookup", Pkg: "store", Quick: map[string]int{"METHOD": 8, "PRE": 1, "REM": 1, "TEMPORAL": 1}, Thorough: map[string]int{"METHOD": 8, "PRE": 2, "REM": 1, "TEMPORAL": 1}, Note: "TriplesForSubjectAndPredicate"},
-		{Name: "HarnessC02Lookup", Pkg: "store", Quick: map[string]int{"METHOD": 9, "PRE": 1, "REM": 1, "TEMPORAL": 1}, Thorough: map[string]int{"METHOD": 9, "PRE": 2, "REM": 1, "TEMPORAL": 1}, Note: "TriplesForPredicateAndObject"},
+		{Name: "HarnessC02Lookup", Pkg: "store", Quick: map[string]int{"METHOD": 8, "PRE": 1, "REM": 1, "TEMPORAL": 1, "ANCHORS": 3}, Thorough: map[string]int{"METHOD": 8, "PRE": 2, "REM": 1, "TEMPORAL": 1, "ANCHORS": 3}, Note: "TriplesForSubjectAndPredicate"},
+		{Name: "HarnessC02Lookup", Pkg: "store", Quick: map[string]int{"METHOD": 9, "PRE": 1, "REM": 1, "TEMPORAL": 1, "ANCHORS": 3}, Thorough: map[string]int{"METHOD": 9, "PRE": 2, "REM": 1, "TEMPORAL": 1, "ANCHORS": 3}, Note: "TriplesForPredicateAndObject"},
 	},
 	"C09": {
 		{Name: "HarnessC09Options", Pkg: "store", Quick: map[string]int{"METHOD": 0, "PRE": 1, "ANCHORS": 2}, Thorough: map[string]int{"METHOD": 0, "PRE": 2, "ANCHORS": 3, "OBJPRED": 1}, OnlyThorough: false},
@@ -125,6 +132,7 @@ var checks = map[string][]HarnessSpec{
 	"C16": {
 		{Name: "HarnessC16Structure", Pkg: "leaf", Quick: map[string]int{"N": 3, "ASCII": 1}, Thorough: map[string]int{"N": 4, "ASCII": 1}},
 		{Name: "HarnessC16Structure", Pkg: "leaf", Quick: map[string]int{"N": 2, "ASCII": 0}, Thorough: map[string]int{"N": 3, "ASCII": 0}, Note: "all 256 byte values"},
+		{Name: "HarnessC16Template", Pkg: "leaf", Quick: map[string]int{"N": 2, "ASCII": 1}, Thorough: map[string]int{"N": 3, "ASCII": 1}, Note: "23 templates with a hole of up to N symbolic bytes"},
 		{Name: "HarnessC16KeywordCase", Pkg: "leaf"},
 		{Name: "HarnessC16LiteralTypeCase", Pkg: "leaf"},
 		{Name: "HarnessC16Whitespace", Pkg: "leaf", Quick: map[string]int{"W": 2, "ASCII": 1}, Thorough: map[string]int{"W": 3, "ASCII": 1}},
